@@ -66,6 +66,7 @@ type Run struct {
 	known        []Finding
 	exhaustive   bool
 	replaying    *ReplayFile
+	mergedDist   int64 // distinct non-trivial cases counted by child processes (disjoint by construction)
 }
 
 // ReplayFile is what is written for every distinct violation signature.
@@ -128,6 +129,15 @@ func (r *Run) Case(desc string, nontrivial bool) {
 	if nontrivial {
 		r.distinct[k] = struct{}{}
 	}
+	r.mu.Unlock()
+}
+
+// MergeCounts adds case counts measured by a child process. The caller guarantees that the
+// children's case sets are disjoint (e.g. partitioned by decoder), so the counts can be added.
+func (r *Run) MergeCounts(evaluations, distinctNontrivial int64) {
+	r.mu.Lock()
+	r.evaluations += evaluations
+	r.mergedDist += distinctNontrivial
 	r.mu.Unlock()
 }
 
@@ -298,7 +308,7 @@ func (r *Run) Finish() int {
 	}
 	cov := map[string]any{
 		"evaluations":         r.evaluations,
-		"distinct_nontrivial": len(r.distinct),
+		"distinct_nontrivial": int64(len(r.distinct)) + r.mergedDist,
 		"rule":                r.Rule,
 		"samples":             r.samples,
 		"observed":            observed,
@@ -388,14 +398,14 @@ func (r *Run) Finish() int {
 		ob = append(ob, fmt.Sprintf("%s=%v", k, observed[k]))
 	}
 	fmt.Printf("SUMMARY property=%s tier=%s seed=%d evaluations=%d distinct_nontrivial=%d inconclusive=%d violations=%d known=%d wall=%.1fs\n  observed: %s\n",
-		r.Prop, r.Tier, r.Seed, r.evaluations, len(r.distinct), r.inconclusive, unknown, known, wall, strings.Join(ob, " "))
+		r.Prop, r.Tier, r.Seed, r.evaluations, int64(len(r.distinct))+r.mergedDist, r.inconclusive, unknown, known, wall, strings.Join(ob, " "))
 	if unknown > 0 {
 		return 1
 	}
 	if r.replaying != nil {
 		return 0
 	}
-	if r.evaluations == 0 || len(r.distinct) < 2 {
+	if r.evaluations == 0 || int64(len(r.distinct))+r.mergedDist < 2 {
 		fmt.Printf("ERROR property=%s nothing conclusive was observed (evaluations=%d distinct=%d)\n", r.Prop, r.evaluations, len(r.distinct))
 		return 3
 	}
